@@ -83,7 +83,7 @@ func New() *OrderedDaemon {
 		stoppedCtxCancel:       stoppedCtxCancel,
 		workers:                make(map[string]*worker),
 		shutdownOrderWorker:    make([]string, 0),
-		wgPerSameShutdownOrder: make(map[int]*sync.WaitGroup),
+		wgPerSameShutdownOrder: make(map[int]*waitGroup),
 	}
 }
 
@@ -97,9 +97,56 @@ type OrderedDaemon struct {
 	stopOnce               sync.Once
 	workers                map[string]*worker
 	shutdownOrderWorker    []string
-	wgPerSameShutdownOrder map[int]*sync.WaitGroup
+	wgPerSameShutdownOrder map[int]*waitGroup
 	lock                   syncutils.RWMutex
 	logger                 log.Logger
+}
+
+// waitGroup counts the running background workers of one shutdown order.
+// In contrast to a sync.WaitGroup it can be incremented again while (or right after) somebody waited for it to become zero.
+// This happens if a background worker is added with a shutdown order whose workers just finished while Run is waiting;
+// a sync.WaitGroup panics in that case ("WaitGroup is reused before previous Wait has returned").
+type waitGroup struct {
+	mutex   sync.Mutex
+	isZero  *sync.Cond
+	counter int
+}
+
+func newWaitGroup() *waitGroup {
+	wg := &waitGroup{}
+	wg.isZero = sync.NewCond(&wg.mutex)
+
+	return wg
+}
+
+// Add adds delta to the counter and wakes up the waiting goroutines if the counter becomes zero.
+func (wg *waitGroup) Add(delta int) {
+	wg.mutex.Lock()
+	defer wg.mutex.Unlock()
+
+	wg.counter += delta
+	if wg.counter < 0 {
+		panic("daemon: negative waitGroup counter")
+	}
+
+	if wg.counter == 0 {
+		wg.isZero.Broadcast()
+	}
+}
+
+// Done decrements the counter by one.
+func (wg *waitGroup) Done() {
+	wg.Add(-1)
+}
+
+// Wait blocks until the counter is zero.
+func (wg *waitGroup) Wait() {
+	wg.mutex.Lock()
+	defer wg.mutex.Unlock()
+
+	for wg.counter > 0 {
+		wg.isZero.Wait()
+	}
 }
 
 type worker struct {
@@ -219,7 +266,7 @@ func (d *OrderedDaemon) BackgroundWorker(name string, handler WorkerFunc, order 
 	}
 
 	if _, ok := d.wgPerSameShutdownOrder[shutdownOrder]; !ok {
-		d.wgPerSameShutdownOrder[shutdownOrder] = &sync.WaitGroup{}
+		d.wgPerSameShutdownOrder[shutdownOrder] = newWaitGroup()
 	}
 
 	ctx, ctxCancel := context.WithCancel(context.Background())
@@ -299,7 +346,7 @@ func (d *OrderedDaemon) Run() {
 }
 
 // returns all waitgroups of all existing shutdown orders or nil if none.
-func (d *OrderedDaemon) waitGroupsForAllShutdownOrders() []*sync.WaitGroup {
+func (d *OrderedDaemon) waitGroupsForAllShutdownOrders() []*waitGroup {
 	d.lock.RLock()
 	defer d.lock.RUnlock()
 
@@ -307,7 +354,7 @@ func (d *OrderedDaemon) waitGroupsForAllShutdownOrders() []*sync.WaitGroup {
 		return nil
 	}
 
-	waitGroups := make([]*sync.WaitGroup, len(d.wgPerSameShutdownOrder))
+	waitGroups := make([]*waitGroup, len(d.wgPerSameShutdownOrder))
 	i := 0
 	for _, wg := range d.wgPerSameShutdownOrder {
 		waitGroups[i] = wg
